@@ -63,6 +63,25 @@ def shifted (fs : FS) (n m : Nat) : FS :=
 /-- state after a crash following the first `j` primitive steps. -/
 def crashState (fs : FS) (backups : Int) (j : Nat) : FS := exec fs ((steps fs backups).take j)
 
+/-! ### faults of a rename (not crashes)
+
+`atomic_replace` retries a failing `os.replace`; a failed attempt changes nothing.  If the rename
+keeps failing (or fails with an errno that is not retried) its clean-up **unlinks the source**
+(`tmp_path.unlink()` — written for temp files, but `rotate_one` passes the generation itself) and
+re-raises, which ends the rotation. -/
+
+/-- steps where step `i` is preceded by `fails[i]` failed attempts that are retried. -/
+def execRetried (fs : FS) : List (Step × Nat) → FS
+  | [] => fs
+  | (s, k) :: rest => execRetried (apply (Nat.repeat id k fs) s) rest
+
+/-- state after the rename at step index `j` failed for good: the first `j` steps done, then the
+source of step `j` unlinked by `atomic_replace`'s clean-up (a failing `os.remove` just raises). -/
+def failState (fs : FS) (backups : Int) (j : Nat) : FS :=
+  match (steps fs backups)[j]? with
+  | some (.mv s _) => apply (crashState fs backups j) (.rm s)
+  | _ => crashState fs backups j
+
 /-! ### monitors (over a finite window of generation indices `0 … hi`) -/
 
 /-- every content of `before` other than generation `n` is still present in `after`, at its
